@@ -133,20 +133,20 @@ theorem AccF_drop {con nc cl} (h : AccF (some con) nc cl) : AccF none nc (con ::
   have hc := h1 con rfl
   refine ⟨by simp, ?_, ?_, ?_⟩
   · intro k hk _
-    by_cases hkc : k = con
+    by_cases hkc : con = k
     · subst hkc; simp [List.count_cons, List.count_eq_zero.mpr hc.2]
     · have := h2 k hk (by simpa using hkc)
-      simp [List.count_cons, this]; omega
+      simp [List.count_cons, this, hkc]
   · intro k hk
     simp at hk
     rcases hk with rfl | hk
     · exact hc.1
     · exact h3 k hk
   · intro k
-    by_cases hkc : k = con
+    by_cases hkc : con = k
     · subst hkc; simp [List.count_cons, List.count_eq_zero.mpr hc.2]
     · have := h4 k
-      simp [List.count_cons]; omega
+      simp [List.count_cons, hkc]; omega
 
 theorem AccF_new {nc cl} (h : AccF none nc cl) : AccF (some nc) (nc + 1) cl := by
   obtain ⟨_, h2, h3, h4⟩ := h
@@ -178,8 +178,8 @@ theorem spec_poolDrop (cf : Cfg) (q p : Bool) (con : Nat) (s : St) (hG : G cf q 
   simp only [decide_true, if_true]
   split <;> rename_i hf
   · have := hF'.2 hf
-    simp_all
+    simp_all [G, PoolFr]
   · have := hF'.1 (by simpa using hf)
-    simp_all
+    simp_all [G, PoolFr]
 
 end PonyVerif.Model.ConnLock
